@@ -108,7 +108,7 @@ fn dispatch_events_per_event_body(&mut self, sources_at_lookup: &SourceList<'l, 
 //@ before <<match ret {>>
             // C09: the deferred request is taken out of (and cleared from) the loop-global cell on EVERY path, so it
             // can never be carried over to a later event or to another source
-            assert(crate::ext::cell_was_set(&self.handle.inner.pending_action, PostAction::Continue)); /*@props C09*/
+            assert(crate::ext::cell_was_set(&self.handle.inner.pending_action, PostAction::Continue)); /*@props C09,C15,C07,C02*/
             // C09: an explicit non-Continue return takes precedence over whatever was deferred
             assert(res0 matches Ok(a0) ==> (!(a0 is Continue) ==> ret == a0)); /*@props C09,C06*/
             // C15 (F10): a processing error is recorded, and nothing is applied for that event
@@ -182,11 +182,11 @@ fn dispatch_events_per_event_body(&mut self, sources_at_lookup: &SourceList<'l, 
 //@ before <<result?>>
             // C09 / C15 ("...including when event processing returns an error"): the cell is reset BEFORE a processing
             // error can be propagated out of this body (defect F3, fixed in 0605ec0)
-            assert(crate::ext::cell_was_set(&self.handle.inner.pending_action, PostAction::Continue)); /*@props C09,C15*/
+            assert(crate::ext::cell_was_set(&self.handle.inner.pending_action, PostAction::Continue)); /*@props C09,C15,C07,C02*/
 //@ before <<match ret {>>
             // C09: the deferred request is taken out of (and cleared from) the loop-global cell on EVERY path, so it
             // can never be carried over to a later event or to another source
-            assert(crate::ext::cell_was_set(&self.handle.inner.pending_action, PostAction::Continue)); /*@props C09*/
+            assert(crate::ext::cell_was_set(&self.handle.inner.pending_action, PostAction::Continue)); /*@props C09,C15,C07,C02*/
             // C09: an explicit non-Continue return takes precedence over whatever was deferred
             assert(res0 matches Ok(a0) ==> (!(a0 is Continue) ==> ret == a0)); /*@props C09,C06*/
             // C01/C09/C14: every action below is applied to the source the event belongs to: the lookup key and the
